@@ -1,4 +1,5 @@
 import XzVerif.Proofs.XzSound
+import XzVerif.Proofs.GoSrcXz
 import XzVerif.Proofs.LazyXz
 import XzVerif.Proofs.Fuel
 /-
@@ -92,5 +93,28 @@ theorem C04_lazy_clean_end_is_verified (cfgCap : Nat) (single : Bool) (inp : Byt
   have hb : LazyXz.batch cfgCap single inp = Xz.read false cfgCap single inp := rfl
   rw [hb] at h1 h2
   exact ⟨h1, h2, Xz.read_clean_consumes_all false cfgCap single inp h1, Xz.clean_needs_stream false cfgCap single inp h1⟩
+
+/-! ### From the SOURCE: bits.go `readUvarint` and format.go `padLen` (regenerated translation, Gen/GoSrc.lean)
+
+  Every size field of the container (block header sizes, index records, their count) enters the cross-checks through
+  `readUvarint`; the reader model's `Xz.readUvarint` is what the source computes — uint64 shift accumulation, the rule
+  for the tenth byte, an eleventh byte read before the overflow is reported, io.EOF with the count of bytes consumed —
+  and the padding arithmetic is the model's. -/
+
+theorem C04_source_readUvarint (b : ByteArray) (pos lim : Nat) (hl : lim ≤ b.size) (fuel : Nat) (hf : 12 ≤ fuel) :
+    match Xz.readUvarint b pos lim with
+    | .ok x n => ∃ r', GoSrc.readUvarint fuel { inp := GoSrcP.sliceBV b pos lim }
+                        = Go.Res.ok (BitVec.ofNat 64 x, BitVec.ofNat 64 n, Go.Err.nil, r')
+                      ∧ r'.inp = GoSrcP.sliceBV b (pos + n) lim ∧ x < 2 ^ 64
+    | .eof n => ∃ x r', GoSrc.readUvarint fuel { inp := GoSrcP.sliceBV b pos lim }
+                        = Go.Res.ok (x, BitVec.ofNat 64 n, Go.Err.named "io.EOF", r')
+    | .overflow => ∃ x n r', GoSrc.readUvarint fuel { inp := GoSrcP.sliceBV b pos lim }
+                        = Go.Res.ok (x, n, Go.Err.named "errOverflowU64", r') :=
+  GoSrcP.readUvarint_spec b pos lim hl fuel hf
+
+theorem C04_source_padLen (n : BitVec 64) (h : n.toNat < 2 ^ 63) : (GoSrc.padLen n).toNat = Xz.padLen n.toNat :=
+  GoSrcP.padLen_spec n h
+
+theorem C04_source_translation_complete : GoSrc.failures = [] := by decide
 
 end Props.C04
